@@ -8,12 +8,12 @@ ALL = ["C%02d" % i for i in range(1, 21)]
 CLAIMED = {
     "C01": dict(
         cat="model_checking", ref="DESIGN 5/C01",
-        technique="TLA+ Store.tla exhaustively model-checked by TLC; its complete state graph replayed edge by edge on the real store (transition tour) and the recorded trace validated against the spec by TLC (StoreTrace.tla)",
+        technique="TLA+ Store.tla exhaustively model-checked by TLC; its complete state graph replayed edge by edge on the real store (transition tour) and the recorded trace validated against the spec by TLC (StoreTrace.tla); histories in which the store is observed after one operation in five (unobserved operations only move the model on)",
         text="Every transition of the complete state graph of the Layer A store model (2 graphs x 4/6 near-miss triples, batches with duplicates and empty) is executed on one live memory store; after every step GraphNames, Graph(n), Exist(t) for all universe triples and the full listing are recorded and TLC checks them against the model, plus seeded random histories over 3 graphs x 16 triples. Exhaustive for the bounded model, sampled beyond.",
         note="Trusted: TLC, the abstraction function harness/uni (constructors/accessors only), universe/store.json. Single goroutine."),
     "C02": dict(
         cat="model_checking", ref="DESIGN 5/C02",
-        technique="TLA+ Lookups.tla comprehensions as oracle; all ten lookups x all argument combinations issued at every newly visited state of the TLC-generated tour and validated by TLC trace checking",
+        technique="TLA+ Lookups.tla comprehensions as oracle; all ten lookups x all argument combinations issued at every newly visited state of the TLC-generated tour and validated by TLC trace checking; looked-up-only predicates anchored 2^64 ns after a stored one and at the zero time",
         text="At every state of the tour (each reached through many histories) and at sampled revisits all ten indexed lookups and Triples are called with every combination of subject/predicate/object from the universe (stored or not, other kind, other instant, other zone) and TLC compares each result bag with the set comprehension over the model content.",
         note="Trusted: TLC, harness/uni, universe/store.json. Results outside the universe are mapped to id 0 and rejected."),
     "C09": dict(
@@ -23,7 +23,7 @@ CLAIMED = {
         note="LatestAnchor combined with a window and requests the driver may reject are left open (counted). Trusted: TLC, harness/uni."),
     "C03": dict(
         cat="model_checking", ref="DESIGN 5/C03, Appendix A",
-        technique="TLA+ BQLSemantics.tla (Match/Solutions set comprehension) as executable oracle: generated SELECT statements executed through the real lexer/parser/planner, every result validated row by row by TLC (QueryTrace.tla); outer SELECT aliases that shadow or swap pattern bindings; constant clauses whose AS alias repeats a binding (joins that cannot be pushed into the lookup)",
+        technique="TLA+ BQLSemantics.tla (Match/Solutions set comprehension) as executable oracle: generated SELECT statements executed through the real lexer/parser/planner, every result validated row by row by TLC (QueryTrace.tla); outer SELECT aliases that shadow or swap pattern bindings; constant clauses whose AS alias repeats a binding (joins that cannot be pushed into the lookup); bounds written with bindings (BQLSemantics PredFor / ObjFor); clauses carrying a binding and an AS alias bound separately; re-matching clauses without new bindings",
         text="Thousands (quick) to 150k (thorough) generated SELECTs of the conjunctive fragment - constants/bindings in every position, repeated bindings, anchor bindings, bounds, AS/ID/TYPE/AT aliases, 1-4 clauses, 1-3 FROM graphs (disjoint and overlapping), global time bounds, other-zone spellings - are run on the real engine over contents drawn from a 31-triple near-miss universe; TLC recomputes the solution bag and compares cell by cell (multiplicity open only where the property leaves it open). Rejected cases are re-evaluated under named Layer B deviations to attribute them to known findings.",
         note="Trusted: TLC, lib/bqlgen.py rendering (cross-checked against the parsed pattern dumped by the driver), harness/bqlu projection by accessors. Random generation seeded by VERIF_SEED, not exhaustive."),
     "C10": dict(
@@ -33,7 +33,7 @@ CLAIMED = {
         note="Patterns where an OPTIONAL clause shares a binding only introduced by an earlier OPTIONAL clause are counted as open, not judged."),
     "C11": dict(
         cat="model_checking", ref="DESIGN 5/C11",
-        technique="TLA+ Group/AggRow operators (BQLSemantics.tla) applied by TLC to the RECORDED ungrouped rows of the same pattern and compared with the recorded grouped rows; plus table level: Table.Reduce with count / count distinct / sum accumulators on real tables validated by TLC against TableAlg.tla IsReduce",
+        technique="TLA+ Group/AggRow operators (BQLSemantics.tla) applied by TLC to the RECORDED ungrouped rows of the same pattern and compared with the recorded grouped rows; plus table level: Table.Reduce with count / count distinct / sum accumulators on real tables validated by TLC against TableAlg.tla IsReduce; GROUP BY without aggregates; sums of int64 beyond 2^53 through additive stand-ins",
         text="For generated patterns and every choice of 1-2 grouping bindings and 1-3 aggregates (count, count distinct, sum) the grouped query and its ungrouped base are both executed; TLC requires exactly one row per distinct key combination (mixed kinds in key columns included) with the right count / distinct count / sum, and an empty result for an empty base.",
         note="Sums are judged only for columns of one numeric kind (quarters, |v|<2^30: TLC has 32-bit integers and no floats)."),
     "C12": dict(
@@ -43,17 +43,17 @@ CLAIMED = {
         note="Key columns holding several kinds are not judged. Literal type names in upper case are left to C08/C16."),
     "C13": dict(
         cat="model_checking", ref="DESIGN 5/C13",
-        technique="TLA+ Eval over the grammar's own expression tree (BQLSemantics.tla) applied by TLC to the recorded rows without HAVING and compared with the recorded rows with it; plus table level: Table.Filter on real tables validated by TLC against TableAlg.tla; FilterLemmas model-checked",
+        technique="TLA+ Eval over the grammar's own expression tree (BQLSemantics.tla) applied by TLC to the recorded rows without HAVING and compared with the recorded rows with it; plus table level: Table.Filter on real tables validated by TLC against TableAlg.tla; FilterLemmas model-checked; HAVING on tables of more than a thousand rows; output names that shadow pattern bindings",
         text="Random expression trees (NOT / AND / OR / parentheses, depth <= 3) over comparisons of bindings with int64, float64, text, bool, node, predicate, time constants (other zones) and other bindings, also over aggregate outputs; TLC requires exactly the rows for which the expression is true, unchanged.",
         note="< and > on nodes/predicates/bools, and binding-vs-binding of different kinds, are not judged; statements rejected by the parser/expression builder are not judged."),
     "C14": dict(
         cat="model_checking", ref="DESIGN 5/C14",
-        technique="metamorphic relations asserted by TLC (bag equality / inclusion / identical sequence) between REAL results of variants of one query: renaming, clause permutation, data partition over 1-3 graphs, supersets of the data, chanSize/bulkSize/GOMAXPROCS, repetition",
+        technique="metamorphic relations asserted by TLC (bag equality / inclusion / identical sequence) between REAL results of variants of one query: renaming, clause permutation, data partition over 1-3 graphs, supersets of the data, chanSize/bulkSize/GOMAXPROCS, repetition; a third of the base queries from the pattern families of C03",
         text="For each generated base query ~10 variants are executed and TLC checks the relation the property states; no reference to the solutions oracle, so C03 findings cannot leak in unless they are order- or configuration-dependent.",
         note="Base queries come from the fragment without OPTIONAL/FILTER/LIMIT/aggregates."),
     "C04": dict(
         cat="model_checking", ref="DESIGN 5/C04",
-        technique="TLA+ Statements.tla (effect of INSERT/DELETE/CREATE/DROP/CONSTRUCT/DECONSTRUCT incl. reification with fresh blank nodes) ; sequences of statements executed as text on one live store; full listing of every graph after each statement validated by TLC (StatementTrace.tla)",
+        technique="TLA+ Statements.tla (effect of INSERT/DELETE/CREATE/DROP/CONSTRUCT/DECONSTRUCT incl. reification with fresh blank nodes) ; sequences of statements executed as text on one live store; full listing of every graph after each statement validated by TLC (StatementTrace.tla); long data lists that repeat every triple, written into several graphs",
         text="60 (quick) / 1500 (thorough) seeded sequences of 10-12 statements over 3 graphs + an unknown name; after every statement the complete listing of all graphs is recorded structurally and TLC checks it equals the previous listing transformed by the statement: targets exactly +/- the listed or instantiated triples (templates x solution rows via the Solutions oracle), fresh blank node per reified row modulo renaming, non-targets untouched, rejected statements change nothing.",
         note="Reification templates write only into ?g3, which is never a FROM graph. A statement failing during execution may leave targets either way."),
     "C17": dict(cat="model_checking", ref="DESIGN 5/C17",
@@ -61,7 +61,7 @@ CLAIMED = {
         text="All table facts (first elements are tokens and pairwise distinct per rule, empty alternative last, referenced rules exist, reachable, productive by least fixpoint, plain = semantic table) are checked for the whole table of the current tree (73 rules / 178 alternatives). For every expansion step of the derivation machine (stack <= 20/26, both alternative orders) a sentence is concretised, lexed and parsed by the real parser; TLC requires accept = Accepts(kinds) and the probed (rule, alternative) sequence = the alternatives LL1!Run takes; every alternative (also the empty ones) must be taken by an accepted run. Complete for the table; witnesses bounded by the stack bound.",
         note="Trusted: TLC, grammardump (exported accessors; element is a token iff Symbol()==''), harness/gram concretiser (only proposes texts; judged on kinds as lexed; a token kind it cannot write raises INFRA, not a verdict)."),
     "C18": dict(cat="model_checking", ref="DESIGN 5/C18",
-        technique="LL1.tla predictive recogniser (Accepts) on the generated table as oracle; TLC-generated sentences, systematic (expected token x offered kind) substitutions, mutations, trailing tokens and all kind sequences <= 3 parsed by the real plain and semantic parsers; histories (every cut position x probes, random) on one parser vs a fresh one; all events validated by TLC (ParserTrace.tla); deviations attributed by rebuilding hook closures on the real code; long histories (tens of thousands of mostly rejected statements on ONE parser, probes in between)",
+        technique="LL1.tla predictive recogniser (Accepts) on the generated table as oracle; TLC-generated sentences, systematic (expected token x offered kind) substitutions, mutations, trailing tokens and all kind sequences <= 3 parsed by the real plain and semantic parsers; histories (every cut position x probes, random) on one parser vs a fresh one; all events validated by TLC (ParserTrace.tla); deviations attributed by rebuilding hook closures on the real code; long histories (tens of thousands of mostly rejected statements on ONE parser, probes in between); statements a semantic hook rejects in the middle of its work (unknown key appended to ORDER BY) followed by the same statement with the direction of its first key turned round",
         text="plain accept = Accepts(kinds as lexed) and semantic accept => Accepts for sentences, 10^4 substitutions/mutations, statements followed by more tokens and all token-kind sequences up to length 3 (quick: length 2 + 2% sample); the outcome and extracted meaning (type, graphs, data, clauses, filters, projections, group/order, HAVING tokens, bounds, limit, construct clauses) of a probe statement after every history (40/160 statements cut at every token, whole, random histories <= 6) equals its meaning on a fresh parser.",
         note="Deviations are classified mechanically: AcceptsPrefix evaluated by TLC; closure family found by delta debugging on the real hooks. Probes whose fresh meaning is not deterministic are open. Trusted: TLC, harness/gram, meaning projection in parsedrv."),
     "C16": dict(cat="model_checking", ref="DESIGN 5/C16",
@@ -69,27 +69,27 @@ CLAIMED = {
         text="Every string of length <= 4/5 over a 12-symbol alphabet (22 621 / 271 453 inputs) with channel capacities 0,1,2,8, seeded random and mutated statements, grammar-generated statements with letter-case, white-space and compact-spacing variants, and ~490 printed nodes/predicates/bounds/literals/bindings/blank nodes built with the real constructors and printers; watchdog turns non-termination into an event. Exact tokenisation is deliberately not specified.",
         note="Known findings: text ending in backslash, id starting with @[ or ^^type:, node type containing '>'. White space between a filter function and '(' is treated as part of the notation (the repository's tests require 'latest (' to be rejected). Values with embedded quotes are open."),
     "C08": dict(cat="model_checking", ref="DESIGN 5/C08",
-        technique="RunTrace.tla outcome/goroutine monitor validating, by TLC, runs of the real pipeline (lexer -> semantic parser -> planner -> executor, as run.BQL) recorded in-process (recover, settled goroutine stacks filtered to badwolf/) and per child process (panics in other goroutines, log.Fatalf); inputs from the TLC derivation machine + hostile concretisations + all token-kind sequences <= 3 + random bytes; LexPipe.tla (lexer || channel || parser) model-checked for the leak predicate; plus 'sink' statements (lib/bqlsink.py): semantically plausible statements combining every feature (joins, OPTIONAL, bound predicates written with bindings, FILTER, GROUP BY with aggregates over any binding, HAVING, ORDER BY, LIMIT, CONSTRUCT/DECONSTRUCT, data statements) on an empty, a small and a large store (more rows than twice the processors)",
+        technique="RunTrace.tla outcome/goroutine monitor validating, by TLC, runs of the real pipeline (lexer -> semantic parser -> planner -> executor, as run.BQL) recorded in-process (recover, settled goroutine stacks filtered to badwolf/) and per child process (panics in other goroutines, log.Fatalf); inputs from the TLC derivation machine + hostile concretisations + all token-kind sequences <= 3 + random bytes; LexPipe.tla (lexer || channel || parser) model-checked for the leak predicate; plus 'sink' statements (lib/bqlsink.py): semantically plausible statements combining every feature (joins, OPTIONAL, bound predicates written with bindings, FILTER, GROUP BY with aggregates over any binding, HAVING, ORDER BY, LIMIT, CONSTRUCT/DECONSTRUCT, data statements) on an empty, a small and a large store (more rows than twice the processors); every third batch of runs on ONE processor (GOMAXPROCS=1); the check stops after five confirmed hangs",
         text="Every run must end in exactly one of table / error, never panic, time out (10 s watchdog, re-run alone) or kill the process, and leave no goroutine with engine frames. 1.5*10^4 (quick) / 3.3*10^5 (thorough) texts: grammar-generated statements with plain and hostile literals/nodes/predicates/bounds/times (one hostile token at a time and random), prefixes, prefix + one token, token mutations, statement + statement, all kind sequences up to length 3 (quick: 2% sample), random bytes and byte mutations, against a populated and an empty memory store.",
         note="Level model_checking for the pipeline model and trace validation, exploration for raw bytes (evidence carries both key sets). The two panics first found here (blob literal shorter than 2 chars, anchor of one double quote) were repaired in the value parsers (fixed: entries). Driver failures are C20."),
     "C19": dict(cat="model_checking", ref="DESIGN 5/C19",
-        technique="TLA+ Memo.tla (per-graph cache, key incl. offset, CheckCache ; Replay | Forward ; Fill, Clear ; ForwardWrite) model-checked by TLC for Transparent and used to enumerate ALL schedules of 1 writer + 1-2 readers; every schedule forced on the real memoizer through verifYield gates (build tag verif) and the recorded invoke/return history validated by TLC (MemoTrace.tla) against the wrapped store's own answers; plus lock-step sequential histories and a cache-key sweep; the key sweep includes windows whose bounds differ from an anchor by less than a second",
+        technique="TLA+ Memo.tla (per-graph cache, key incl. offset, CheckCache ; Replay | Forward ; Fill, Clear ; ForwardWrite) model-checked by TLC for Transparent and used to enumerate ALL schedules of 1 writer + 1-2 readers; every schedule forced on the real memoizer through verifYield gates (build tag verif) and the recorded invoke/return history validated by TLC (MemoTrace.tla) against the wrapped store's own answers; plus lock-step sequential histories and a cache-key sweep; the key sweep includes windows whose bounds differ from an anchor by less than a second; one options value whose fields are re-pointed between lookups",
         text="(i) sequential lock-step histories (memoized store vs plain twin) over all lookup methods, option shapes incl. window/filter/LatestAnchor/MaxElements/Offset, Exist, Triples, two handles of one graph, failing forwarded reads; (ii) every schedule TLC enumerates at the grain CheckCache/Forward/Fill/Clear/ForwardWrite/Return for 1 writer and 1-2 readers (same/different key, same/second handle) is forced on the real code; (iii) key sweep: pairs of requests differing in exactly one argument or option must not share a cached answer. TLC requires every answer to equal the wrapped graph's answer at an instant inside the call and never one older than the last returned write. Exhaustive over the schedules of the bounded model, sampled for sequential histories.",
         note="Needs the verifYield hook (storage/memoization/verif_on.go). Each named deviation of Memo.tla (offset not in key, per-handle cache, fill after clear, memoized failed read) is model-checked to violate Transparent as a non-vacuity control. Trusted: TLC, harness/uni, the gate scheduler of memodrv."),
     "C07": dict(cat="model_checking", ref="DESIGN 5/C07",
-        technique="TLA+ ConcStore.tla (Go RW-mutex with writer preference, batch-atomic add, per-triple remove, streaming lookups under the read lock, store-level lock) model-checked by TLC for refinement to the sequential store, dead-lock freedom and close-exactly-once; invoke/return histories recorded from the real store built with -race are validated by TLC (ConcTrace.tla places the silent linearisation steps; a history is rejected iff no placement explains the results); race-detector reports, panics, watchdog, channel-close counters and options observers are events the spec has no action for",
+        technique="TLA+ ConcStore.tla (Go RW-mutex with writer preference, batch-atomic add, per-triple remove, streaming lookups under the read lock, store-level lock) model-checked by TLC for refinement to the sequential store, dead-lock freedom and close-exactly-once; invoke/return histories recorded from the real store built with -race are validated by TLC (ConcTrace.tla places the silent linearisation steps; a history is rejected iff no placement explains the results); race-detector reports, panics, watchdog, channel-close counters and options observers are events the spec has no action for; a driver process killed by a goroutine of the engine, and a statement the parser rejects only when parsed concurrently, are observations",
         text="All interleavings of 2 processes x <=2 operations and 3 processes x 1 operation over 3 triples / 2 graph names in the model; on the real code: many small random histories (<=4 goroutines x <=4 ops: add/remove batches, Exist, all lookups with options, create/get/drop graphs) checked for linearisability by TLC, targeted schedules derived from model counterexamples (lookup parked on an undrained channel while another call runs; batch atomicity), long hammer/stress runs under the race detector with close-exactly-once and options-untouched observers and a dead-lock watchdog.",
         note="Data-race freedom is the Go race detector's judgement on the executions run, not TLC's. Clients drain result channels. Real-time order from a global atomic counter read before each call and after its return."),
     "C20": dict(cat="model_checking", ref="DESIGN 5/C20",
-        technique="TLA+ ExecPipeline.tla (goroutines/channels of simpleFetch, errgroup fan-out, update(), CONSTRUCT bulk writer, SHOW) model-checked by TLC for FailureSurfaces and eventual termination of every goroutine under each fault; the same module (PlanSpec) enumerates ALL fault plans (call position x before/after j/on write) of the fault-free driver call sequence of every corpus statement; each plan executed on the real planner over a fault-injecting storage.Store/Graph and the recorded run validated by TLC (FaultTrace.tla)",
+        technique="TLA+ ExecPipeline.tla (goroutines/channels of simpleFetch, errgroup fan-out, update(), CONSTRUCT bulk writer, SHOW) model-checked by TLC for FailureSurfaces and eventual termination of every goroutine under each fault; the same module (PlanSpec) enumerates ALL fault plans (call position x before/after j/on write) of the fault-free driver call sequence of every corpus statement; each plan executed on the real planner over a fault-injecting storage.Store/Graph and the recorded run validated by TLC (FaultTrace.tla); the fault store takes a moment between closing a channel and returning its error; a graph with more rows than twice the processors",
         text="66 statements (every plan type, 1-3 clauses, every simpleFetch branch, OPTIONAL, GROUP BY, CONSTRUCT/DECONSTRUCT with and without ';', several target graphs, SHOW, CREATE/DROP) x store configurations (direct, memoized) x every driver call of the fault-free run x modes {before anything, after j elements, on write}: ~10^3 (quick) fault plans, each on a fresh store. TLC requires: a failed driver call => Execute returns an error (no table of partial data, no success), returns within the watchdog, and no goroutine with badwolf frames remains after settling.",
         note="fault_enumeration style evidence keys are included. A failing driver call still closes its channel (as storage/memory does); ExecNoClose shows the planner hangs otherwise. A table returned together with the error is left open."),
     "C05": dict(cat="model_checking", ref="DESIGN 5/C05",
-        technique="TLA+ ValueText.tla (printed forms and the parsers' delimiter rules over a symbolic alphabet) evaluated exhaustively by TLC for RoundTrip/Unambiguous to produce candidate values; valuedrv executes candidates + exhaustive short strings over the delimiter alphabet + boundary and seeded random values on the real constructors, printers and parsers; every print->parse->print and WriteGraph->ReadIntoGraph case is validated by TLC (ValueTrace.tla) on components read back by accessors",
+        technique="TLA+ ValueText.tla (printed forms and the parsers' delimiter rules over a symbolic alphabet) evaluated exhaustively by TLC for RoundTrip/Unambiguous to produce candidate values; valuedrv executes candidates + exhaustive short strings over the delimiter alphabet + boundary and seeded random values on the real constructors, printers and parsers; every print->parse->print and WriteGraph->ReadIntoGraph case is validated by TLC (ValueTrace.tla) on components read back by accessors; round trips also with the bounded literal builder",
         text="All strings up to length 3 over an 18-character delimiter alphabet as node id / node type / predicate id (immutable and temporal) / text, alone, as object and (length <=2) inside triples; numbers, anchors (zones, sub-second, year boundaries), blobs, composite values and graphs (<=30 triples) from boundary sets and seeded random; TLC requires same kind, equal components (anchors equal as instants with the same offset), identical second print; graphs: same triple set and both counts equal its size.",
         note="Documented domain per docs/temporal_graph_modeling.md; ids with white space, node types containing '<' or '>', non-UTF-8 ids and sub-minute zone offsets are left open (counted). Known findings: text literal containing a line break in WriteGraph/ReadIntoGraph."),
     "C06": dict(cat="model_checking", ref="DESIGN 5/C06",
-        technique="TLA+ Identity.tla (UUID(v) represented by the byte string fed to SHA1; Injective/Functional/Total) evaluated by TLC over all same-kind pairs of a 191-value near-miss universe to produce colliding/undefined candidates; valuedrv executes all pairs and candidates on the real code (UUID equality, Triple.Equal, Graph.Exist vs component equality; UUID twice, in 4 goroutines and in a child process) and TLC validates every recorded pair (ValueTrace.tla); Identity.tla Variants: for six plausible other encodings TLC lists the universe pairs that tell each from the current design (INFRA when a variant has none); UUIDs of different values computed by eight goroutines at once",
+        technique="TLA+ Identity.tla (UUID(v) represented by the byte string fed to SHA1; Injective/Functional/Total) evaluated by TLC over all same-kind pairs of a 215-value near-miss universe to produce colliding/undefined candidates; valuedrv executes all pairs and candidates on the real code (UUID equality, Triple.Equal, Graph.Exist vs component equality; UUID twice, in 4 goroutines and in a child process) and TLC validates every recorded pair (ValueTrace.tla); Identity.tla Variants: for six plausible other encodings TLC lists the universe pairs that tell each from the current design (INFRA when a variant has none); UUIDs of different values computed by eight goroutines at once",
         text="All same-kind pairs of the universe (nodes whose type/id boundary shifts, ids equal to types, predicates differing only in kind/instant/zone, literals of different types with equal encodings, int64/float64 boundary values, objects boxing a node/predicate/literal with coinciding bytes, triples differing in one component) plus boundary sets and seeded near-miss pairs: TLC requires equal UUID <=> same kind and equal components (anchors as instants), Equal likewise, UUID stable across calls/goroutines/processes and defined (no panic) for every constructible value.",
         note="SHA1 is treated as injective. +0/-0 float64 pairs are left open. Known findings: node type/id boundary (node.TestUUID pins the formula), anchors 2^64 ns apart (UnixNano wraps)."),
     "C15": dict(cat="model_checking", ref="DESIGN 5/C15",
